@@ -888,7 +888,8 @@ def grad_einsum(argnum, ans, operands_, kwargs):
             rest_of_ops = (
                 [operands[-1]] + operands[:argnum] + operands[(argnum + 2) : -1] + [operands[argnum + 1]]
             )
-            return unbroadcast_einsum(anp.einsum(g, *rest_of_ops), result_meta, operands[argnum + 1])
+            out = unbroadcast_einsum(anp.einsum(g, *rest_of_ops), result_meta, operands[argnum + 1])
+            return match_complex(operands_[argnum], out)
 
     return vjp
 
